@@ -47,7 +47,7 @@ class C05(Prop):
                     hook = bool(i % 2)
                     if 'partial-reset-train' in s:
                         hook = False
-                    if tier == 'quick' and i % 2 and 'partial-reset-train' not in s:
+                    if tier == 'quick' and (i + len(''.join(s))) % 3:
                         continue
                     model = ['lin', 'lin-nb', 'conv', 'two'][i % 4]
                     if tier == 'quick' and model == 'two':
@@ -57,7 +57,8 @@ class C05(Prop):
                         acc = 1
                     out.append({'harness': 'lockstep', 'ops': s, 'method': method, 'hp': hp,
                                 'intervals': 'callable' if hp == 'callable' else 'sym', 'hook': hook, 'acc': acc,
-                                'model': model, 'clip': i % 5 == 0, 'init': 'arbitrary'})
+                                'model': model, 'clip': (i % 7 == 0 and hp == 'const' and (tier == 'thorough' or method == 'inverse')),
+                                'init': 'arbitrary'})
         return out
 
     def run(self, cfg, eng):
